@@ -36,6 +36,7 @@ func init() {
 			ruleOnlyTheWholePatternIsJudged(c, "R13")
 			ruleSegmentsAreBuiltFromParsedPieces(c, "R14")
 			ruleAdjacencyIsDecidedOnTheText(c, "R15")
+			ruleRegexpSplitOnRuneBoundary(c, "R16")
 			ruleIndexedFieldsKeepValidatedText(c, "R12")
 		},
 	})
